@@ -20,6 +20,16 @@ CLAIMED['C13'] = ('Lean proof over the BatchNorm/Dropout history model + corresp
          'For every option setting and every history: eval forwards never change the layer state and normalise with the running statistics; a training forward advances the counter once and moves running mean / unbiased variance by the documented factor; closed forms of the exponential and cumulative averages; without tracking the batch statistics are always used; Dropout is the identity in eval, zeroes exactly the draws <= p and scales survivors by 1/(1-p), and its backward is the transpose through the same mask. Real layers are run on generated histories over the option grid; uniform draws are captured so the mask relation is exact.', '6 C13')
 CLAIMED['C15'] = ('Lean proof over the request model of nn/init.py + correspondence with captured generator arguments',
          'Theorems: fan_in/fan_out formula and rank guard, gain table, and for each initialiser the (low, high | mean, std) handed to the generator equal the documented expressions (std itself, not std^2; gain/sqrt(fan); U(-1/sqrt(fan_in), 1/sqrt(fan_in)) for layers). The real initialisers and layer constructors run with np.random.uniform/normal wrapped: captured arguments must equal the model request and the tensor data must be the draw with the model parameters; identity, shape, dtype, requires_grad preserved.', '6 C15')
+CLAIMED['C03'] = ('Lean proof: reverse-mode sweep of the engine model is the transpose of forward mode on any DAG + regenerated op table + correspondence on random DAG programs',
+         'Theorems about the model of Tensor.backward for every finite DAG: post-order is topological and covers exactly the reachable nodes; each grad_fn is called exactly once; backward completes; chain_rule_any_dag (for any bi-additive pairing and any tangent assignment obeying the forward recursion, the root pairing equals the total increment of the leaf pairings: sum over all paths, fan-out, repeated operands, multi-output ops, mixed requires_grad). The per-op adjoint identity is a hypothesis here (C01/C02). A table of all 48 op wrappers is regenerated from the source each run and proved well-formed by decide. Random DAG programs (values, flags, engine trace, all gradients, shuffled construction order) are run on model and implementation.', '3.2, 6 C03')
+CLAIMED['C04'] = ('Lean proof over the engine model for arbitrary buffer states (= any history) + correspondence on generated histories',
+         'Theorems: the traversal freshly zeroes every non-leaf operand; no_leftover_leak (states differing only in gradients left on non-leaf tensors give the same trace and the same gradients on reachable nodes and leaves); leaf_gradients_accumulate (the increment a call adds to a leaf is independent of all buffers); unreachable tensors untouched, only buffers change. Histories over shared leaves (backward from any node incl. earlier roots/interiors, repeats, retain_grad, retain_grads, zeroing, re-use) compare every gradient after every event.', '3.2, 6 C04')
+CLAIMED['C07'] = ('Lean proof over the grad-mode / tensor-creation model + correspondence on event sequences',
+         'Theorems: a context restores the mode in force at entry whatever its stale prev field held (normal exit and exit by exception run the same __exit__); modes_stack for every well-nested block structure at any depth; result flag = mode and any operand; a result that does not require grad has no grad_fn, no operands, no gradient, refuses backward and never acquires a gradient; float-only rule at creation and in the setter (leaves only); release rule after backward. Event sequences with pre-constructed and re-used contexts, exits by exception, mixed dtypes and flags are run on both sides comparing modes and all flags after every event.', '3.2, 6 C07')
+CLAIMED['C17'] = ('Lean proof (each op once, linear trace, no history for untracked results) + correspondence on deep/wide graphs; runtime residue observed',
+         'Theorems for graphs of any depth: the traversal covers exactly the reachable nodes once, each grad_fn is called exactly once, at most 3 engine events per reachable node, backward completes; an untracked result (no_grad or no operand requiring grad) holds no operands and no grad_fn. PARTIAL by nature: CPython recursion depth, reference counting and wall time cannot be exhibited by a model; they are observed on the implementation (50 000-op chain, 100 000 untracked updates with weakrefs) and a failure there is reported with that run as the replay.', '6 C17')
+CLAIMED['C19'] = ('Lean proof over the regenerated random-site table and an abstract non-interference theorem + double-run correspondence',
+         'Theorems: every call site of the package that can draw randomness or read process-dependent state uses a generator manual_seed seeds (table regenerated from the source every run, decide); every modelled API draws only through seeded generator functions; a run whose steps ignore the environment is determined by the seed. PARTIAL by nature: bit-reproducibility of NumPy/BLAS and allocation layout are runtime behaviour; the check hashes seeded programs (random tensors, layers, init, dropout, shuffled split, training steps, a fan-out graph) repeated in-process and in fresh processes under several PYTHONHASHSEEDs and compares draw signatures with the model.', '6 C19')
 PENDING = {}
 ALL = [f'C{i:02d}' for i in range(1, 21)]
 
